@@ -544,6 +544,42 @@ def unit(p, item, tier, seed):
         check_config(p, cfg, deep=(i % 4 == 0))
 
 
+TIMEOUT_SRC = """
+def timed_out_search(cfg):
+    # environment: the time-limited solver call ends the way pebble documents for an expired limit
+    from checks import c06
+    from checks.c04 import timeouts_at
+    from cirbo.synthesis.exception import NoSolutionError
+    try:
+        with timeouts_at({0}):
+            c06.build_finder(cfg).find_circuit(time_limit=5)
+        return 'returned a circuit although the solver call timed out'
+    except NoSolutionError as e:
+        return 'the expired time limit is reported as "no solution exists" (' + type(e).__name__ + ' is a NoSolutionError)'
+    except Exception:
+        return None
+"""
+exec(TIMEOUT_SRC)  # noqa: S102
+
+
+def timeout_unit(p, item, tier, seed):
+    """An instance that has a solution, searched under a time limit that expires: whatever is raised, it must not be
+    (a kind of) NoSolutionError -- 'no solution' is reported exactly when none exists."""
+    for cfg in item:
+        cfg = {k: v for k, v in cfg.items() if k != "time_limit"}
+        try:
+            build_finder(cfg).find_circuit()
+        except Exception:  # noqa: BLE001
+            continue  # no solution (or a rejected configuration): nothing to say about a time-out here
+        p.case(("timeout", repr(cfg)), sample=f"time limit expires on the satisfiable {cfg}" if len(p.samples) < 2 else None)
+        bad = timed_out_search(cfg)  # noqa: F821
+        p.queries["sat" if bad else "unsat"] += 1
+        if bad:
+            p.violation("find_circuit:time-limit-expired:reported-as-no-solution", f"{bad} for {cfg}",
+                        HEAD + TIMEOUT_SRC + f"cfg={cfg!r}\nbad=timed_out_search(cfg)\nprint(bad); sys.exit(1 if bad else 0)\n")
+            return
+
+
 def run(rep, tier, seed, only=None):
     rep.functions = ["CircuitFinderSat.__init__ / get_cnf / _init_default_cnf_formula / _add_exactly_one_of / _is_dont_cares_input",
                      "fix_gate / forbid_wire / need_normalized", "find_circuit (plain and time_limit via pebble) / _solve_cnf / _get_circuit_by_model / _tt_to_gate_type",
@@ -563,3 +599,5 @@ def run(rep, tier, seed, only=None):
     rep.pmap(unit, [cfgs[i::k] for i in range(k)])
     # find_circuit(time_limit=...) forks through pebble: not possible inside a daemonic pool worker
     rep.pmap(unit, [forked], procs=1)
+    plain = [c for c in cfgs if not c.get("constraints")][: 24 if tier == "quick" else 80]
+    rep.pmap(timeout_unit, [plain[i::8] for i in range(8)])
